@@ -28,8 +28,9 @@ type h1Seen struct {
 	PrefixOK bool   `json:"prefix_ok"` // delivered == origin body[:DLen]
 	FollowOK bool   `json:"follow_ok"` // second request succeeded with its own body
 	FollowEr string `json:"follow_err,omitempty"`
-	SameConn bool   `json:"same_conn"` // second request was served by the first request's connection
-	N1, N2   int    `json:"-"`         // how many times each phase reached the peer
+	SameConn bool   `json:"same_conn"`        // second request was served by the first request's connection
+	Reread   []rr   `json:"reread,omitempty"` // auto mode: later ToBytes/ToBytes/ToString on the same Response
+	N1, N2   int    `json:"-"`                // how many times each phase reached the peer
 	Panic    string `json:"panic,omitempty"`
 	Hung     bool   `json:"hung,omitempty"`
 }
@@ -76,13 +77,32 @@ func exchange(c *req.Client, srv *wire.Server, st *wire.Stream, w []byte, k int,
 			}
 		}()
 		var data []byte
-		if auto {
+		if auto && k%2 == 1 {
+			// the first read is an explicit ToBytes on an unread Response
+			resp, err := c.R().DisableAutoReadResponse().Get("http://c03.test/x/" + id + "/1")
+			if err != nil {
+				o.CallErr = err.Error()
+			} else {
+				b, e := resp.ToBytes()
+				if e != nil {
+					o.CallErr = "ToBytes: " + e.Error()
+				}
+				data = b
+				if e != nil {
+					data = resp.Bytes()
+				}
+			}
+			if resp != nil {
+				o.Reread = reread(resp, data)
+			}
+		} else if auto {
 			resp, err := c.R().Get("http://c03.test/x/" + id + "/1")
 			if err != nil {
 				o.CallErr = err.Error()
 			}
 			if resp != nil {
 				data = resp.Bytes()
+				o.Reread = reread(resp, data)
 			}
 		} else {
 			resp, err := c.R().DisableAutoReadResponse().Get("http://c03.test/x/" + id + "/1")
@@ -128,6 +148,66 @@ func exchange(c *req.Client, srv *wire.Server, st *wire.Stream, w []byte, k int,
 		o.SameConn = c1[0] == c2[len(c2)-1]
 	}
 	return
+}
+
+// rr: one later read of the body through the Response API (ToBytes, ToBytes, ToString) after
+// the first read - the auto-read inside the call, or a first explicit ToBytes - is over.
+type rr struct {
+	OK   bool `json:"nil_error"`
+	Len  int  `json:"len"`
+	Same bool `json:"same_bytes_as_first"`
+}
+
+func reread(resp *req.Response, first []byte) []rr {
+	var out []rr
+	for i := 0; i < 2; i++ {
+		b, err := resp.ToBytes()
+		out = append(out, rr{err == nil, len(b), bytes.Equal(b, first)})
+	}
+	s, err := resp.ToString()
+	out = append(out, rr{err == nil, len(s), s == string(first)})
+	return out
+}
+
+var rereadSeen = struct {
+	sync.Mutex
+	m map[string]bool
+}{m: map[string]bool{}}
+
+// rereadOracle: the Response keeps what the first read found - an error stays an error (never
+// the fragment with a nil error), a body stays that body.  Emits the observation as a Coq
+// case once per distinct shape.
+func rereadOracle(r *hk.Run, proto, sig string, success bool, firstLen int, rrs []rr, in, got interface{}) {
+	if len(rrs) == 0 {
+		return
+	}
+	for _, x := range rrs {
+		if !success && x.OK {
+			r.Fail(hk.Failure{Sig: proto + ":reread-success:" + sig, What: "after a body read that failed, a later ToBytes/ToString on the same Response returned the fragment with a nil error", Input: in, Got: got, Want: "the error of the first read, again"})
+			break
+		}
+		if success && (!x.OK || !x.Same) {
+			r.Fail(hk.Failure{Sig: proto + ":reread-differs:" + sig, What: "after a successful read a later ToBytes/ToString on the same Response failed or returned other bytes", Input: in, Got: got})
+			break
+		}
+	}
+	var obs []string
+	key := fmt.Sprintf("%v|%d", success, firstLen)
+	for _, x := range rrs {
+		obs = append(obs, hk.CoqPair(hk.CoqBool(x.OK), hk.CoqN(uint64(x.Len))))
+		key += fmt.Sprintf("|%v,%d", x.OK, x.Len)
+	}
+	rereadSeen.Lock()
+	dup := rereadSeen.m[key] || len(rereadSeen.m) >= 60
+	rereadSeen.m[key] = true
+	rereadSeen.Unlock()
+	r.Count("reread.observed")
+	if dup {
+		return
+	}
+	r.Add(hk.Case{Coq: fmt.Sprintf("RespReads %s %s %s", hk.CoqBool(success), hk.CoqN(uint64(firstLen)), hk.CoqList(obs)),
+		Desc: map[string]interface{}{"kind": "reread", "proto": proto, "first_read_ok": success, "first_len": firstLen, "later": rrs}},
+		"reread|"+key, !success)
 }
 
 func trunc(b []byte, n int) []byte {
@@ -387,6 +467,7 @@ func runH1(r *hk.Run, rng *hk.Rand) error {
 		}
 		flush(len(st.Wire))
 	}
+	runH1ClLines(r, rng.Fork(), srv)
 	return runH1Full(r, rng, srv)
 }
 
@@ -399,6 +480,7 @@ func h1Oracle(r *hk.Run, st *wire.Stream, o h1Seen, kind, cls string, wireLen in
 		return
 	}
 	success := o.CallErr == "" && o.ReadErr == ""
+	rereadOracle(r, "h1", sig, success, o.DLen, o.Reread, in, o)
 	complete := o.K < 0 || o.K >= wireLen
 	full := o.DLen == len(st.Body) && o.PrefixOK
 	// close-delimited bodies without content-coding: a cut cannot be told from the end of
